@@ -1,2 +1,691 @@
 import Rscp.Model.Cli
 import Rscp.Lemmas.Client
+/-
+Helper lemmas for the command model (`Model/Cli.lean`), used by `Props/C15.lean`.
+-/
+namespace Rscp.Model
+open Rscp
+
+/-! ## the values the request parser builds are Go values -/
+
+/-- the library's number→bool/string coercion returns plain Go values (`Props.C15.CoerceOK`) -/
+def CoerceGo (lib : JsonLib) : Prop :=
+  ∀ k d v, lib.coerce k d = some v → (∃ b, v = .bool b) ∨ (∃ s, v = .str s) ∨ (∃ s, v = .bytes s)
+
+theorem coerce_go {lib : JsonLib} (hc : CoerceGo lib) {k d v} (h : lib.coerce k d = some v) : GoVal v := by
+  rcases hc k d v h with ⟨b, rfl⟩ | ⟨s, rfl⟩ | ⟨s, rfl⟩ <;> simp [GoVal]
+
+theorem genericVal_go (j : J) : GoVal (genericVal j) := by
+  cases j <;> simp [genericVal, GoVal]
+
+theorem int_go {k : Kind} {d : Dec} {v : Val}
+    (h : (match d.toInt? with
+      | some n => if k.inRange n then some (Val.num k n) else none
+      | none => none) = some v) : GoVal v := by
+  split at h
+  · split at h
+    · next hr => simp at h; subst h; exact kind_inRange_width hr
+    · simp at h
+  · simp at h
+
+theorem newNumber_go {lib : JsonLib} (hc : CoerceGo lib) {dt d v} (h : newNumber lib dt d = some v) : GoVal v := by
+  unfold newNumber at h
+  split at h
+  · rw [Option.map_eq_some_iff] at h; obtain ⟨b, _, rfl⟩ := h; simp [GoVal, Kind.width]
+  · rw [Option.map_eq_some_iff] at h; obtain ⟨b, _, rfl⟩ := h; simp [GoVal, Kind.width]
+  · exact coerce_go hc h
+  · exact coerce_go hc h
+  · exact coerce_go hc h
+  · simp at h
+  · simp at h
+  · simp at h
+  · simp at h
+  · exact int_go h
+
+theorem leafValueOfJ_go {lib : JsonLib} (hc : CoerceGo lib) {dt j v} (h : leafValueOfJ lib dt j = some v) : GoVal v := by
+  unfold leafValueOfJ at h
+  split at h
+  · simp at h; subst h; simp [GoVal]
+  split at h
+  · split at h
+    · rw [Option.map_eq_some_iff] at h; obtain ⟨a, _, rfl⟩ := h; simp [GoVal]
+    · simp at h
+  split at h
+  · split at h
+    · rw [Option.map_eq_some_iff] at h; obtain ⟨a, _, rfl⟩ := h; simp [GoVal]
+    · simp at h
+  split at h
+  · exact newNumber_go hc h
+  · simp at h; subst h; exact genericVal_go _
+
+theorem outcomeOfOpt_ok {α} {o : Option α} {a : α} (h : outcomeOfOpt o = .ok a) : o = some a := by
+  cases o <;> simp_all [outcomeOfOpt]
+
+theorem objects_go {lib : JsonLib} (hc : CoerceGo lib) : ∀ f,
+    (∀ j m, msgOfObject lib f j = .ok m → GoMsg m) ∧
+    (∀ js ms, msgsOfObjects lib f js = .ok ms → GoMsgs ms) := by
+  intro f
+  induction f with
+  | zero => constructor <;> intro _ _ h <;> simp [msgOfObject, msgsOfObjects] at h
+  | succ f ih =>
+    constructor
+    · intro j m h
+      simp only [msgOfObject] at h
+      split at h
+      · split at h
+        · simp at h
+        · simp at h
+        · split at h
+          · simp at h
+          · next tag _ =>
+            split at h
+            · simp at h
+            · simp at h
+            · next dt _ =>
+              split at h
+              · simp at h
+              · simp at h
+              · next v hv =>
+                have hgo : GoVal v := by
+                  split at hv
+                  · split at hv
+                    · simp at hv
+                    · simp at hv; subst hv; simp [GoVal, GoMsgs]
+                    · split at hv
+                      · next ms hms => simp at hv; subst hv; exact ih.2 _ _ hms
+                      · simp at hv
+                      · simp at hv
+                    · simp at hv
+                  · split at hv
+                    · simp at hv; subst hv; simp [GoVal]
+                    · exact leafValueOfJ_go hc (outcomeOfOpt_ok hv)
+                split at h
+                · simp at h; subst h; exact hgo
+                · simp at h
+                · simp at h
+      · simp at h
+    · intro js ms h
+      cases js with
+      | nil => simp [msgsOfObjects] at h; subst h; trivial
+      | cons j js =>
+        simp only [msgsOfObjects] at h
+        split at h
+        · next m hm =>
+          split at h
+          · next ms' hms => simp at h; subst h; exact ⟨ih.1 _ _ hm, ih.2 _ _ hms⟩
+          · simp at h
+          · simp at h
+        · simp at h
+        · simp at h
+
+theorem requests_go {lib : JsonLib} (hc : CoerceGo lib) : ∀ f,
+    (∀ dt j v, valueOfJ lib f dt j = .ok v → GoVal v) ∧
+    (∀ j m, requestOfJ lib f j = .ok m → GoMsg m) ∧
+    (∀ j ms, requestsOfJ lib f j = .ok ms → GoMsgs ms) ∧
+    (∀ js ms, requestListOfJ lib f js = .ok ms → GoMsgs ms) := by
+  intro f
+  induction f with
+  | zero =>
+    refine ⟨?_, ?_, ?_, ?_⟩
+    · intro _ _ _ h; simp [valueOfJ] at h
+    · intro _ _ h; simp [requestOfJ] at h
+    · intro _ _ h; simp [requestsOfJ] at h
+    · intro _ _ h; simp [requestListOfJ] at h
+  | succ f ih =>
+    obtain ⟨ihV, ihQ, ihR, ihL⟩ := ih
+    refine ⟨?_, ?_, ?_, ?_⟩
+    · intro dt j v h
+      simp only [valueOfJ] at h
+      split at h
+      · split at h
+        · next ms hms => simp at h; subst h; exact ihR _ _ hms
+        · simp at h
+        · simp at h
+      · exact leafValueOfJ_go hc (outcomeOfOpt_ok h)
+    · intro j m h
+      simp only [requestOfJ] at h
+      split at h
+      · split at h
+        · simp at h
+        · split at h
+          · simp at h; subst h; simp [GoMsg, GoVal]
+          · simp at h
+        · split at h
+          · simp at h
+          · split at h
+            · simp at h; subst h; simp [GoMsg, GoVal]
+            · split at h
+              · next v hv => simp at h; subst h; exact ihV _ _ _ hv
+              · simp at h
+              · simp at h
+        · split at h
+          · simp at h
+          · split at h
+            · split at h
+              · next v hv => simp at h; subst h; exact ihV _ _ _ hv
+              · simp at h
+              · simp at h
+            · simp at h
+        · simp at h
+      · split at h
+        · simp at h; subst h; simp [GoMsg, GoVal]
+        · simp at h
+      · split at h
+        · simp at h
+        · split at h
+          · simp at h; subst h; simp [GoMsg, GoVal]
+          · simp at h
+      · exact (objects_go hc f).1 _ _ h
+    · intro j ms h
+      simp only [requestsOfJ] at h
+      split at h
+      · exact ihL _ _ h
+      · simp at h
+    · intro js ms h
+      cases js with
+      | nil => simp [requestListOfJ] at h; subst h; trivial
+      | cons j js =>
+        simp only [requestListOfJ] at h
+        split at h
+        · next m hm =>
+          split at h
+          · next ms' hms => simp at h; subst h; exact ⟨ihQ _ _ hm, ihL _ _ hms⟩
+          · simp at h
+          · simp at h
+        · simp at h
+        · simp at h
+
+/-! ## the parsers never run out of fuel and never panic -/
+
+theorem J.size_pos (j : J) : 1 ≤ j.size := by
+  cases j <;> simp [J.size] <;> omega
+
+theorem J.size_le_sizeFields : ∀ (kvs : List (List Byte × J)) (kv : List Byte × J), kv ∈ kvs →
+    kv.2.size ≤ J.sizeFields kvs
+  | [], _, h => by simp at h
+  | (k, v) :: r, kv, h => by
+    simp only [J.sizeFields]
+    rcases List.mem_cons.1 h with rfl | h
+    · simp
+    · have := J.size_le_sizeFields r kv h; omega
+
+theorem fieldOf_size {name : List Byte} {kvs : List (List Byte × J)} {v : J} (h : fieldOf name kvs = some v) :
+    v.size ≤ J.sizeFields kvs := by
+  unfold fieldOf at h
+  rw [Option.map_eq_some_iff] at h
+  obtain ⟨kv, hkv, rfl⟩ := h
+  exact J.size_le_sizeFields kvs kv (by simpa using List.mem_of_find?_eq_some hkv)
+
+theorem objects_total {lib : JsonLib} (hc : CoerceGo lib) : ∀ f,
+    (∀ j, 2 * j.size ≤ f → msgOfObject lib f j = .panic → False) ∧
+    (∀ js, 2 * J.sizeList js + 1 ≤ f → msgsOfObjects lib f js = .panic → False) := by
+  intro f
+  induction f with
+  | zero =>
+    constructor
+    · intro j hf; have := J.size_pos j; omega
+    · intro js hf; omega
+  | succ f ih =>
+    constructor
+    · intro j hf h
+      simp only [msgOfObject] at h
+      split at h
+      · next kvs =>
+        split at h
+        · simp at h
+        · simp at h
+        · split at h
+          · simp at h
+          · next tag _ =>
+            split at h
+            · simp at h
+            · next hdt =>
+              split at hdt
+              · simp at hdt
+              · split at hdt
+                · split at hdt
+                  · next str _ => cases hd : dataTypeString? str <;> simp [hd, outcomeOfOpt] at hdt
+                  · simp at hdt
+                · simp at hdt
+            · next dt _ =>
+              split at h
+              · simp at h
+              · next hv =>
+                split at hv
+                · split at hv
+                  · simp at hv
+                  · simp at hv
+                  · next xs hxs =>
+                    split at hv
+                    · simp at hv
+                    · simp at hv
+                    · next hp =>
+                      have h1 := fieldOf_size hxs
+                      simp only [J.size] at h1 hf
+                      exact ih.2 xs (by omega) hp
+                  · simp at hv
+                · split at hv
+                  · simp at hv
+                  · next x _ => cases hl : leafValueOfJ lib dt x <;> simp [hl, outcomeOfOpt] at hv
+              · next v hv =>
+                have hgo : GoVal v := by
+                  split at hv
+                  · split at hv
+                    · simp at hv
+                    · simp at hv; subst hv; simp [GoVal, GoMsgs]
+                    · split at hv
+                      · next ms hms => simp at hv; subst hv; exact (objects_go hc f).2 _ _ hms
+                      · simp at hv
+                      · simp at hv
+                    · simp at hv
+                  · split at hv
+                    · simp at hv; subst hv; simp [GoVal]
+                    · exact leafValueOfJ_go hc (outcomeOfOpt_ok hv)
+                split at h
+                · simp at h
+                · simp at h
+                · next hp => exact validateMsg_ne_panic (.mk tag dt v) hgo hp
+      · simp at h
+    · intro js hf h
+      cases js with
+      | nil => simp [msgsOfObjects] at h
+      | cons j js =>
+        simp only [msgsOfObjects] at h
+        simp only [J.sizeList] at hf
+        have := J.size_pos j
+        split at h
+        · split at h
+          · simp at h
+          · simp at h
+          · next hp => exact ih.2 js (by omega) hp
+        · simp at h
+        · next hp => exact ih.1 j (by omega) hp
+
+theorem requests_total {lib : JsonLib} (hc : CoerceGo lib) : ∀ f,
+    (∀ dt j, 3 * j.size + 1 ≤ f → valueOfJ lib f dt j = .panic → False) ∧
+    (∀ j, 3 * j.size ≤ f → requestOfJ lib f j = .panic → False) ∧
+    (∀ j, 3 * j.size ≤ f → requestsOfJ lib f j = .panic → False) ∧
+    (∀ js, 3 * J.sizeList js + 1 ≤ f → requestListOfJ lib f js = .panic → False) := by
+  intro f
+  induction f with
+  | zero =>
+    refine ⟨?_, ?_, ?_, ?_⟩
+    · intro _ j hf; omega
+    · intro j hf; have := J.size_pos j; omega
+    · intro j hf; have := J.size_pos j; omega
+    · intro js hf; omega
+  | succ f ih =>
+    obtain ⟨ihV, ihQ, ihR, ihL⟩ := ih
+    refine ⟨?_, ?_, ?_, ?_⟩
+    · intro dt j hf h
+      simp only [valueOfJ] at h
+      split at h
+      · split at h
+        · simp at h
+        · simp at h
+        · next hp => exact ihR j (by omega) hp
+      · cases hl : leafValueOfJ lib dt j <;> simp [hl, outcomeOfOpt] at h
+    · intro j hf h
+      simp only [requestOfJ] at h
+      split at h
+      · split at h
+        · simp at h
+        · split at h <;> simp at h
+        · next tj x =>
+          split at h
+          · simp at h
+          · split at h
+            · simp at h
+            · split at h
+              · simp at h
+              · simp at h
+              · next hp =>
+                have := J.size_pos tj
+                simp only [J.size, J.sizeList] at hf
+                exact ihV _ x (by omega) hp
+        · next tj x y =>
+          split at h
+          · simp at h
+          · split at h
+            · split at h
+              · simp at h
+              · simp at h
+              · next hp =>
+                have := J.size_pos tj
+                have := J.size_pos x
+                simp only [J.size, J.sizeList] at hf
+                exact ihV _ y (by omega) hp
+            · simp at h
+        · simp at h
+      · split at h <;> simp at h
+      · split at h
+        · simp at h
+        · split at h <;> simp at h
+      · have := J.size_pos j
+        exact (objects_total hc f).1 j (by omega) h
+    · intro j hf h
+      simp only [requestsOfJ] at h
+      split at h
+      · next xs =>
+        simp only [J.size] at hf
+        exact ihL xs (by omega) h
+      · simp at h
+    · intro js hf h
+      cases js with
+      | nil => simp [requestListOfJ] at h
+      | cons j js =>
+        simp only [requestListOfJ] at h
+        simp only [J.sizeList] at hf
+        have := J.size_pos j
+        split at h
+        · split at h
+          · simp at h
+          · simp at h
+          · next hp => exact ihL js (by omega) hp
+        · simp at h
+        · next hp => exact ihQ j (by omega) hp
+
+/-- parse totality: with the fuel `run()` gives it, the request parser never panics -/
+theorem requestsOfJ_total {lib : JsonLib} (hc : CoerceGo lib) (j : J) :
+    requestsOfJ lib (4 * j.size + 4) j = .panic → False :=
+  (requests_total hc _).2.2.1 j (by omega)
+
+theorem requestsOfJ_go {lib : JsonLib} (hc : CoerceGo lib) {f j ms} (h : requestsOfJ lib f j = .ok ms) : GoMsgs ms :=
+  (requests_go hc f).2.2.1 j ms h
+
+/-! ## `cliRun` in two stages -/
+
+/-- the client calls of `run()` -/
+def cliExec (env : CliEnv) (ms : List Msg) : Res (List Msg) × List (List Msg) :=
+  if env.split then splitLoop env.cred env.authReply env.dialOk {} ms env.replies [] []
+  else
+    ((sendMultiple env.cred {} ms { dialOk := env.dialOk, auth := env.authReply, user := env.replies.headD .ioFail }).2.1,
+     cliSentFrames (sendMultiple env.cred {} ms { dialOk := env.dialOk, auth := env.authReply, user := env.replies.headD .ioFail }).2.2)
+
+/-- the choice of the output format -/
+def cliDoc (format : String) (rs : List Msg) : Option (Option JO) :=
+  if format = "json" then some (fmtJson rs)
+  else if format = "jsonsimple" then some (fmtSimple rs)
+  else if format = "jsonmerged" then some (fmtMerged rs)
+  else none
+
+/-- the end of `run()`/`main()` -/
+def cliFinish (format : String) (res : Res (List Msg)) (frames : List (List Msg)) : CliOut :=
+  match res with
+  | .err _ => cliFail frames
+  | .panic => cliPanic frames
+  | .ok rs =>
+    match cliDoc format rs with
+    | none => cliFail frames
+    | some none => cliFail frames
+    | some (some d) => { status := 0, stdout := some d, stderrNonEmpty := false, panicked := false, frames := frames }
+
+theorem cliRun_eq (lib : JsonLib) (env : CliEnv) :
+    cliRun lib env =
+      match env.request with
+      | none => cliFail []
+      | some j =>
+        match requestsOfJ lib (4 * j.size + 4) j with
+        | .err _ => cliFail []
+        | .panic => cliPanic []
+        | .ok ms => cliFinish env.format (cliExec env ms).1 (cliExec env ms).2 := by
+  unfold cliRun
+  cases env.request with
+  | none => rfl
+  | some j =>
+    simp only []
+    cases requestsOfJ lib (4 * j.size + 4) j with
+    | err e => rfl
+    | panic => rfl
+    | ok ms => rfl
+
+theorem cliFinish_frames (format : String) (res : Res (List Msg)) (frames : List (List Msg)) :
+    (cliFinish format res frames).frames = frames := by
+  unfold cliFinish
+  split
+  · rfl
+  · rfl
+  · split <;> rfl
+
+theorem cliFinish_contract (format : String) (res : Res (List Msg)) (frames : List (List Msg)) :
+    ((cliFinish format res frames).status = 0 ∧ (cliFinish format res frames).stdout.isSome ∧
+      (cliFinish format res frames).panicked = false) ∨
+    ((cliFinish format res frames).status ≠ 0 ∧ (cliFinish format res frames).stdout = none ∧
+      (cliFinish format res frames).stderrNonEmpty = true) := by
+  unfold cliFinish
+  split
+  · right; simp [cliFail]
+  · right; simp [cliPanic]
+  · split
+    · right; simp [cliFail]
+    · right; simp [cliFail]
+    · left; simp
+
+theorem cliFinish_panicked (format : String) (res : Res (List Msg)) (frames : List (List Msg))
+    (h : res = .panic → False) : (cliFinish format res frames).panicked = false := by
+  unfold cliFinish
+  split
+  · rfl
+  · exact absurd rfl h
+  · split <;> rfl
+
+theorem cliFinish_status (format : String) (res : Res (List Msg)) (frames : List (List Msg))
+    (h : (cliFinish format res frames).status = 0) : ∃ rs, res = .ok rs := by
+  unfold cliFinish at h
+  split at h
+  · simp [cliFail] at h
+  · simp [cliPanic] at h
+  · exact ⟨_, rfl⟩
+
+theorem cliFinish_stdout (format : String) (rs : List Msg) (fr fr' : List (List Msg)) :
+    (cliFinish format (.ok rs) fr).stdout = (cliFinish format (.ok rs) fr').stdout := by
+  simp only [cliFinish]
+  split <;> rfl
+
+/-! ## successful client calls -/
+
+/-- the state invariant at a call boundary: nothing pending, authenticated only if connected -/
+def Tidy (st : CState) : Prop :=
+  (∀ n q, st.conn = some (n, q) → q = []) ∧ (st.conn = none → st.authed = false)
+
+theorem tidy_init : Tidy {} := by simp [Tidy]
+
+theorem connected_ok (cred : Cred) (n : Nat) (a : Bool) (c : Nat) (reqs rs : List Msg) (sc : Script)
+    (hok : (connected cred ⟨some (n, []), a, c⟩ reqs sc).2.1 = .ok rs) :
+    (connected cred ⟨some (n, []), a, c⟩ reqs sc).1 = ⟨some (n, []), true, c⟩ ∧
+    cliSentFrames (connected cred ⟨some (n, []), a, c⟩ reqs sc).2.2 =
+      (if a then [] else [authRequest cred.user cred.password]) ++ [reqs] ∧
+    sc.user = .frame rs := by
+  rcases connected_cases cred n [] a c reqs sc with
+    ⟨_, ⟨e, he, hR⟩ | hR | ⟨e, hR⟩ | ⟨m, ms, rest, hq, hR⟩⟩ |
+    ⟨pre, q1, hpre, hu⟩
+  · simp [hR] at hok
+  · simp [hR] at hok
+  · simp [hR] at hok
+  · simp [hR] at hok
+  · have hq1 : q1 = [] := by
+      rcases hpre with ⟨_, _, rfl⟩ | ⟨_, _, m', ms', hq'⟩
+      · rfl
+      · exact (tokens_frame (by simpa using hq')).2
+    subst hq1
+    rcases hu with ⟨e, he, hR⟩ | ⟨hp, hR⟩ | hR | ⟨e, hR⟩ | ⟨m, ms', rest, hq, hR⟩
+    · simp [hR] at hok
+    · simp [hR] at hok
+    · simp [hR] at hok
+    · simp [hR] at hok
+    · obtain ⟨hu1, hu2⟩ := tokens_frame (by simpa using hq)
+      subst hu2
+      simp [hR] at hok
+      subst hok
+      refine ⟨by simp [hR], ?_, hu1⟩
+      rcases hpre with ⟨rfl, rfl, _⟩ | ⟨rfl, rfl, _⟩ <;> simp [hR, cliSentFrames]
+
+theorem sendMultiple_ok (cred : Cred) (st : CState) (reqs rs : List Msg) (sc : Script) (ht : Tidy st)
+    (hok : (sendMultiple cred st reqs sc).2.1 = .ok rs) :
+    (∃ n c, (sendMultiple cred st reqs sc).1 = ⟨some (n, []), true, c⟩) ∧
+    cliSentFrames (sendMultiple cred st reqs sc).2.2 =
+      (if st.authed then [] else [authRequest cred.user cred.password]) ++ [reqs] ∧
+    sc.user = .frame rs := by
+  rcases sendMultiple_cases cred st reqs sc with ⟨hc, _, hR⟩ | ⟨n, q, c', pre, hpre, hR⟩
+  · simp [hR] at hok
+  · have hq : q = [] := by
+      rcases hpre with ⟨hc, _, _⟩ | ⟨_, _, _, hq, _, _⟩
+      · exact ht.1 n q hc
+      · exact hq
+    subst hq
+    have hpre' : cliSentFrames pre = [] := by
+      rcases hpre with ⟨_, rfl, _⟩ | ⟨_, _, _, _, rfl, _⟩ <;> simp [cliSentFrames]
+    rw [hR] at hok
+    obtain ⟨h1, h2, h3⟩ := connected_ok cred n st.authed c' reqs rs sc hok
+    rw [hR]
+    refine ⟨⟨n, c', h1⟩, ?_, h3⟩
+    show cliSentFrames (pre ++ _) = _
+    unfold cliSentFrames at *
+    rw [List.filterMap_append, hpre', h2]
+    rfl
+
+theorem send_ok (cred : Cred) (st : CState) (req r : Msg) (sc : Script) (ht : Tidy st)
+    (hok : (send cred st req sc).2.1 = .ok r) :
+    (∃ n c, (send cred st req sc).1 = ⟨some (n, []), true, c⟩) ∧
+    cliSentFrames (send cred st req sc).2.2 =
+      (if st.authed then [] else [authRequest cred.user cred.password]) ++ [[req]] ∧
+    ∃ rest, sc.user = .frame (r :: rest) := by
+  obtain ⟨e1, e2⟩ := send_state_events cred st req sc
+  rw [e1, e2]
+  rcases hs : sendMultiple cred st [req] sc with ⟨st', res, ev⟩
+  cases res with
+  | ok l =>
+    cases l with
+    | nil => simp [send, hs] at hok
+    | cons m rest =>
+      simp [send, hs] at hok
+      subst hok
+      have := sendMultiple_ok cred st [req] (m :: rest) sc ht (by rw [hs])
+      rw [hs] at this
+      exact ⟨this.1, this.2.1, rest, this.2.2⟩
+  | err e => simp [send, hs] at hok
+  | panic => simp [send, hs] at hok
+
+theorem tidy_authed (n c : Nat) : Tidy ⟨some (n, []), true, c⟩ := by
+  simp [Tidy]
+
+theorem send_ne_panic (cred : Cred) (st : CState) (req : Msg) (sc : Script) (hgo : GoMsg req) :
+    (send cred st req sc).2.1 = .panic → False := by
+  intro h
+  have hgo' : GoMsgs [req] := ⟨hgo, trivial⟩
+  rcases hs : sendMultiple cred st [req] sc with ⟨st', r, ev⟩
+  rcases sendMultiple_result cred st [req] sc with ⟨e, h'⟩ | ⟨m, ms, h'⟩ | ⟨hp, _⟩
+  · rw [hs] at h'; simp at h'; subst h'; simp [send, hs] at h
+  · rw [hs] at h'; simp at h'; subst h'; simp [send, hs] at h
+  · exact validateRequests_ne_panic hgo' hp
+
+theorem sendMultiple_ne_panic (cred : Cred) (st : CState) (reqs : List Msg) (sc : Script) (hgo : GoMsgs reqs) :
+    (sendMultiple cred st reqs sc).2.1 = .panic → False := by
+  intro h
+  rcases sendMultiple_result cred st reqs sc with ⟨e, h'⟩ | ⟨m, ms, h'⟩ | ⟨hp, _⟩
+  · rw [h] at h'; simp at h'
+  · rw [h] at h'; simp at h'
+  · exact validateRequests_ne_panic hgo hp
+
+/-! ## the `-splitrequests` loop -/
+
+theorem splitLoop_cons (cred : Cred) (auth : Reply) (d : Bool) (st : CState) (m : Msg) (ms : List Msg)
+    (replies : List Reply) (acc : List Msg) (fr : List (List Msg)) :
+    splitLoop cred auth d st (m :: ms) replies acc fr =
+      match send cred st m { dialOk := d, auth := auth, user := replies.headD .ioFail } with
+      | (st', .ok r, ev) => splitLoop cred auth d st' ms replies.tail (acc ++ [r]) (fr ++ cliSentFrames ev)
+      | (_, .err e, ev) => (.err e, fr ++ cliSentFrames ev)
+      | (_, .panic, ev) => (.panic, fr ++ cliSentFrames ev) := by
+  rfl
+
+theorem splitLoop_ne_panic (cred : Cred) (auth : Reply) (d : Bool) : ∀ (ms : List Msg) (st : CState)
+    (replies : List Reply) (acc : List Msg) (fr : List (List Msg)), GoMsgs ms →
+    (splitLoop cred auth d st ms replies acc fr).1 = .panic → False
+  | [], st, replies, acc, fr, _, h => by simp [splitLoop] at h
+  | m :: ms, st, replies, acc, fr, hgo, h => by
+    rw [splitLoop_cons] at h
+    have hnp := send_ne_panic cred st m { dialOk := d, auth := auth, user := replies.headD .ioFail } hgo.1
+    rcases hs : send cred st m { dialOk := d, auth := auth, user := replies.headD .ioFail } with ⟨st', r, ev⟩
+    rw [hs] at h hnp
+    cases r with
+    | ok r => exact splitLoop_ne_panic cred auth d ms st' _ _ _ hgo.2 h
+    | err e => simp at h
+    | panic => exact hnp rfl
+
+theorem splitLoop_ok (cred : Cred) (auth : Reply) (d : Bool) : ∀ (ms : List Msg) (st : CState)
+    (replies : List Reply) (acc : List Msg) (fr : List (List Msg)) (out : List Msg) (frames : List (List Msg)),
+    Tidy st → (ms ≠ [] ∨ st.authed = true) →
+    splitLoop cred auth d st ms replies acc fr = (.ok out, frames) →
+    frames = fr ++ (if st.authed then [] else [authRequest cred.user cred.password]) ++ ms.map (fun m => [m]) ∧
+    (∀ rs : List Msg, replies = rs.map (fun r => Reply.frame [r]) → rs.length = ms.length → out = acc ++ rs)
+  | [], st, replies, acc, fr, out, frames, _, hne, h => by
+    have ha : st.authed = true := by
+      rcases hne with h | h
+      · exact absurd rfl h
+      · exact h
+    simp [splitLoop] at h
+    obtain ⟨rfl, rfl⟩ := h
+    refine ⟨by simp [ha], ?_⟩
+    intro rs _ hl
+    have : rs = [] := List.eq_nil_of_length_eq_zero (by simpa using hl)
+    simp [this]
+  | m :: ms, st, replies, acc, fr, out, frames, ht, _, h => by
+    rw [splitLoop_cons] at h
+    have hso := fun r => send_ok cred st m r { dialOk := d, auth := auth, user := replies.headD .ioFail } ht
+    rcases hs : send cred st m { dialOk := d, auth := auth, user := replies.headD .ioFail } with ⟨st', r, ev⟩
+    rw [hs] at h hso
+    cases r with
+    | err e => simp at h
+    | panic => simp at h
+    | ok r =>
+      obtain ⟨⟨n, c, hst⟩, hfr, rest, hu⟩ := hso r rfl
+      simp only at hst hfr hu h
+      subst hst
+      obtain ⟨ih1, ih2⟩ := splitLoop_ok cred auth d ms _ _ _ _ out frames (tidy_authed n c) (.inr rfl) h
+      constructor
+      · rw [ih1, hfr]; simp
+      · intro rs hr hl
+        cases rs with
+        | nil => simp at hl
+        | cons r0 rs' =>
+          subst hr
+          simp at hu
+          have := ih2 rs' (by simp) (by simpa using hl)
+          rw [this, hu.1]; simp
+
+/-! ## the client calls of `run()` -/
+
+theorem cliExec_ne_panic (env : CliEnv) (ms : List Msg) (hgo : GoMsgs ms) : (cliExec env ms).1 = .panic → False := by
+  unfold cliExec
+  cases env.split with
+  | true => exact splitLoop_ne_panic _ _ _ ms _ _ _ _ hgo
+  | false => exact sendMultiple_ne_panic _ _ ms _ hgo
+
+theorem cliExec_split_ok (env : CliEnv) (ms out : List Msg) (hs : env.split = true) (hne : ms ≠ [])
+    (hok : (cliExec env ms).1 = .ok out) :
+    (cliExec env ms).2 = authRequest env.cred.user env.cred.password :: ms.map (fun m => [m]) ∧
+    (∀ rs : List Msg, env.replies = rs.map (fun r => Reply.frame [r]) → rs.length = ms.length → out = rs) := by
+  unfold cliExec at hok ⊢
+  simp only [hs, if_true] at hok ⊢
+  have := splitLoop_ok env.cred env.authReply env.dialOk ms ({} : CState) env.replies [] [] out
+    (splitLoop env.cred env.authReply env.dialOk ({} : CState) ms env.replies [] []).2 tidy_init (.inl hne)
+    (by rw [← hok])
+  simpa using this
+
+theorem cliExec_unsplit_ok (env : CliEnv) (ms out rs : List Msg) (hs : env.split = false)
+    (hr : env.replies = [.frame rs]) (hok : (cliExec env ms).1 = .ok out) : out = rs := by
+  unfold cliExec at hok
+  simp only [hs, Bool.false_eq_true, if_false] at hok
+  have := (sendMultiple_ok env.cred ({} : CState) ms out _ tidy_init hok).2.2
+  simp [hr] at this
+  exact this.symm
+
+/-- `cliRun` when the request text parses -/
+theorem cliRun_parsed (lib : JsonLib) (env : CliEnv) (j : J) (ms : List Msg) (hj : env.request = some j)
+    (hp : requestsOfJ lib (4 * j.size + 4) j = .ok ms) :
+    cliRun lib env = cliFinish env.format (cliExec env ms).1 (cliExec env ms).2 := by
+  rw [cliRun_eq, hj]
+  simp only [hp]
+
+end Rscp.Model
+
